@@ -33,7 +33,8 @@ def gen_cases(tier, seed):
     for i in range(n):
         cases.append({"seed": int(rng.integers(2**31)), "N": int(rng.choice([2, 3, 5, 17, 64, 200, 513])),
                       "product": ["forward", "call", "put", "call-vector", "onthefly"][i % 5], "ncv": int(i % 4),
-                      "cv_prices": ["scalar", "vector"][(i // 4) % 2], "spot_stats": bool((i // 8) % 2)})
+                      "cv_prices": ["scalar", "vector"][(i // 4) % 2], "spot_stats": bool((i // 8) % 2),
+                      "cv_notional": float([1.0, 1.0, 1e-2, 1.0, 250.0, 1e-4, 1.0, 2e-5, 1.0][(i // 4) % 9])})
     return cases
 
 
@@ -82,14 +83,15 @@ def run_case(case, R):
     wit = {"case": case, "first_values": s[:5].tolist(), "strike": k, "notional": notional, "rate": rate, "T": T}
     # control variates
     cvs, cv_funs = [], []
+    cv_notional = float(case.get("cv_notional", 1.0))     # controls in small cash units (rate-like payoffs) as well as large ones
     for j in range(case["ncv"]):
         kj = float(k * (0.85 + 0.1 * j))
         if dim == 1:
             pj, fj = _payoff(["forward", "call", "put"][j % 3], kj, ks)
         else:
             pj, fj = _payoff("call-vector", kj, [kj * 0.8, kj, kj * 1.25])
-        cvs.append(Product(payoff_underlying=Spot(), payoff=pj, maturity=T, notional=1.0))
-        cv_funs.append(fj)
+        cvs.append(Product(payoff_underlying=Spot(), payoff=pj, maturity=T, notional=cv_notional))
+        cv_funs.append(lambda x, fj=fj: cv_notional * np.asarray(fj(x), dtype=float))
     X = None
     cv_obj = None
     prices = None
